@@ -123,6 +123,9 @@ func (z *Interpreter) LoadFile(file string) *Interpreter {
 		if err != nil {
 			return nil, err
 		}
+		// the source is read completely here: the file is not left open for the garbage
+		// collector to close some day
+		defer in.Close()
 
 		return in.ReadAll()
 	}
